@@ -12,6 +12,15 @@ import Driver.Proto
     unpack_ref / pack_ref / roundtrip_ref  the same three operations answered on the reference lane semantics only
                                            (arrays of more than ~600 elements by axis, where the pipeline model is too slow)
 
+    unpack_n / pack_n / roundtrip_n        huge inputs (lanes above ~4000 bytes, 16 384 .. 1 120 000 elements): the model answers the outcome
+                                           class and the RESULT SHAPE (`ok shape d,d,…`) — the top-level definitions `unpackBits` / `packBits`
+                                           run with `alongShape`, an `Along` that feeds ONE zero lane of the right length through the real lane
+                                           function and keeps only the lengths; the flat packing arm answers `(pad8 elems).length / 8`.
+                                           The values are compared by the harness with its native coordinate reference, which the harness
+                                           compares with the full model answer on every other unpack / pack / round-trip case of the run.
+    seq <case> / <case> / …                several cases on one thread, answers joined by ` / ` (hidden state between calls)
+    oracle_report …                        bookkeeping line of the harness
+
 order = none | E:big | E:little | S:<hex utf-8> (&str) | T:<hex utf-8> (String)
 The axis forms are computed twice — on the pipeline model of the crate's `apply_along_axis` (`alongPipe`) and on the
 reference lane semantics (`alongRef`); if the two ever differ the answer is `model-split …`, which no observation equals.
@@ -74,8 +83,46 @@ def both (run : Along → Res (Arr Nat)) : String :=
   let r := showRes showNatArr (run alongRef)
   if p == r then p else "model-split pipe=[" ++ p ++ "] ref=[" ++ r ++ "]"
 
-def handle (op : String) (args : List String) : Option String :=
+/-- the shape part of `alongRef`: one zero lane of the axis length goes through the real lane function `f`; the result carries
+the shape `alongRef` gives (`a.shape.set axis (f lane).len`) and no elements -/
+def alongShape : Along := fun a axis f =>
+  if axis ≥ a.ndim then .err .AxisOutOfBounds
+  else match f (Arr.flat (List.replicate (a.shape.getD axis 0) 0)) with
+    | .ok r => .ok ⟨[], a.shape.set axis r.elems.length⟩
+    | .err e => .err e
+    | .panic => .panic
+
+def showShapeOnly (a : Arr Nat) : String := "shape " ++ showNatList a.shape
+
+/-- `pack_bits` for the shape answer.  The model's packing of one lane is quadratic (`group8` drops from the front), so the lane
+function is not run here: a packed lane has `(pad8 lane).length / 8` bytes (theorem `pack_length`).  The by-axis arm is
+`packBits alongShapePack`, the flat arm the same checks and `pad8`. -/
+def alongShapePack : Along := fun a axis _ =>
+  if axis ≥ a.ndim then .err .AxisOutOfBounds
+  else .ok ⟨[], a.shape.set axis ((pad8 (List.replicate (a.shape.getD axis 0) 0)).length / 8)⟩
+
+def packShape (a : Arr Nat) (ax : Option Int) (ord : Option Spelling) : Res (Arr Nat) :=
+  match ax with
+  | some _ => packBits alongShapePack a ax ord
+  | none =>
+    match optOrder ord with
+    | .err e => .err e
+    | .panic => .panic
+    | .ok _ => if a.isEmpty then .ok ⟨[], [0]⟩ else .ok ⟨[], [(pad8 a.elems).length / 8]⟩
+
+def handle1 (op : String) (args : List String) : Option String :=
   match op, args with
+  | "unpack_n", [a, ax, cnt, ord] => do
+    let a ← parseBytes? a; let ax ← parseOpt? parseInt? ax; let cnt ← parseOpt? parseInt? cnt
+    let ord ← parseOrder? ord
+    some (showRes showShapeOnly (unpackBits alongShape a ax cnt ord))
+  | "pack_n", [a, ax, ord] => do
+    let a ← parseBytes? a; let ax ← parseOpt? parseInt? ax; let ord ← parseOrder? ord
+    some (showRes showShapeOnly (packShape a ax ord))
+  | "roundtrip_n", [a, ax, ord] => do
+    let a ← parseBytes? a; let ax ← parseOpt? parseInt? ax; let ord ← parseOrder? ord
+    some (showRes showShapeOnly (unpackBits alongShape a ax none ord >>= fun u =>
+      packShape ⟨List.replicate u.shape.prod 0, u.shape⟩ ax ord))
   | "unpack", [a, ax, cnt, ord] => do
     let a ← parseBytes? a; let ax ← parseOpt? parseInt? ax; let cnt ← parseOpt? parseInt? cnt
     let ord ← parseOrder? ord
@@ -112,6 +159,22 @@ def handle (op : String) (args : List String) : Option String :=
     | none => some "err parse"
     | some u => some ("ok " ++ toString (if signed then toSigned w u else Int.ofNat u))
   | _, _ => none
+
+/-- split an argument list at the `/` tokens -/
+def splitSlash (args : List String) : List (List String) :=
+  let (cur, done) := args.foldl (fun (st : List String × List (List String)) t =>
+    if t == "/" then ([], st.1.reverse :: st.2) else (t :: st.1, st.2)) ([], [])
+  (cur.reverse :: done).reverse
+
+def handle (op : String) (args : List String) : Option String :=
+  match op with
+  | "seq" => do
+    let answers ← (splitSlash args).mapM (fun c => match c with
+      | o :: as => handle1 o as
+      | [] => none)
+    some (" / ".intercalate answers)
+  | "oracle_report" => some "ok report"
+  | _ => handle1 op args
 
 end Driver.C19
 
